@@ -991,6 +991,18 @@ func (r *runner) confirmAndMinimise(c *candidate, tier string) (string, *replayF
 	}
 	defer w.stop()
 	tape := c.tape
+	if tape == nil && c.race && c.v.Oracle == "race" {
+		// the -race worker died at the report and never told which part of its stream it had used. The
+		// schedule is a function of the tape alone, so the plain worker makes the same choices (and
+		// survives): its canonical tape is the used prefix, a far better start for minimisation than
+		// the raw 65536-value stream
+		if pw, err := startWorker(r.bin, false, 0); err == nil {
+			if resp, ci, e := pw.do(r.request(c.run), time.Duration(r.cfg.TimeoutS)*time.Second); e == nil && ci == nil && resp != nil && resp.Result != nil && len(resp.Result.Tape) > 0 {
+				tape = resp.Result.Tape
+			}
+			pw.stop()
+		}
+	}
 	if tape == nil {
 		tape = rawStream(r.seed, r.cfg.Engine, r.prop, c.run, 1<<16)
 	}
